@@ -101,7 +101,11 @@ def render(sc, vtool, log, extra=None):
         L.append("rule r_regen")
         L.append("  command = %s --log %s --id build.ninja --key regen --nocmd --reads build.ninja.in --outs .regen.out && touch build.ninja" % (vtool, log))
         L.append("  generator = 1")
-        L.append("build build.ninja: r_regen build.ninja.in")
+        # (optionally the manifest's statement waits for / asks for other statements: a stamp of the generator's own tools as an
+        # order-only input, a lint step as a validation - work that can be out of date while the manifest itself is current)
+        L.append("build build.ninja: r_regen build.ninja.in" +
+                 (" || " + " ".join(sc["regen_manifest_oins"]) if sc.get("regen_manifest_oins") else "") +
+                 (" |@ " + " ".join(sc["regen_manifest_vals"]) if sc.get("regen_manifest_vals") else ""))
     if sc.get("defaults"):
         L.append("default " + " ".join(sc["defaults"]) + (" build.ninja" if sc.get("regen_manifest") else ""))
     return "\n".join(L) + "\n"
